@@ -694,8 +694,10 @@ def translate(rep, ex: Explorer):
                         return all(ev(q, tb) for q in g[1])
                     if k == "or":
                         return any(ev(q, tb) for q in g[1])
-                    if g == ("cmp", "<", ("lin", (((("len", tb), 1),), -3)), ("c", 0)):
-                        return False  # well-formed triple
+                    if g[0] == "cmp" and g[1] in ("<", "==") and isinstance(g[2], tuple) and g[2][0] == "lin" and g[3] == ("c", 0) and all(t == ("len", tb) for t, c in g[2][1][0]):
+                        # an arity test, evaluated for a well-formed triple (three components)
+                        val = sum(c * 3 for t, c in g[2][1][0]) + g[2][1][1]
+                        return (val < 0) if g[1] == "<" else (val == 0)
                     for kk, val in ((1, ne1), (2, ne2)):
                         it = ("item", ("elem", tb, "triple"), ("c", kk))
                         if g == ("truthy", it):
